@@ -671,7 +671,7 @@ pub fn format_code(
 		ConvTypeV::Percent => tmp_out.push('%'),
 	}
 
-	let padding = width.saturating_sub(tmp_out.len() as u16);
+	let padding = width.saturating_sub(u16::try_from(tmp_out.chars().count()).unwrap_or(u16::MAX));
 
 	if !clfags.left {
 		for _ in 0..padding {
